@@ -193,5 +193,99 @@ pub open spec fn ends_ok(net: &Network, s: Seq<NodeIdx>) -> bool {
                     && (forall|k: int| 0 <= k < nodes@.len() - 2 ==> !(#[trigger] network.sp_node(nodes@[k + 1])).sp_is_depot())
                     && forall|k: int| 0 <= k < it.index@ ==> #[trigger] network.reach(nodes@[k], nodes@[k + 1])),
 //@end
+
+//@item solution/src/tour.rs Tour::first_node
+//@retname r
+//@sig
+    requires self.nodes@.len() >= 1,
+    ensures r == self.nodes@[0],
+//@end
+//@item solution/src/tour.rs Tour::last_node
+//@retname r
+//@sig
+    requires self.nodes@.len() >= 1,
+    ensures r == self.nodes@[self.nodes@.len() - 1],
+//@end
+
+//@item solution/src/tour/modifications.rs Tour::replace_start_depot
+//@retname r
+//@sig
+    requires self.wf(), self.caches_ok(), self.network.has(new_start_depot), tour_len_ok(self.nodes@),
+    ensures
+        r is Ok <==> !self.is_dummy && self.network.sp_node(new_start_depot) is StartDepot,
+        // C13/C01: a depot-only operation changes no activity; the tour stays valid
+        r is Ok ==> r->Ok_0.nodes@ == self.nodes@.update(0, new_start_depot) && r->Ok_0.is_dummy == self.is_dummy && r->Ok_0.network == self.network,
+        r is Ok ==> r->Ok_0.wf(), // @obl C01.replace_start_depot.wf
+        r is Ok ==> r->Ok_0.caches_ok(), // @obl C09.replace_start_depot.caches
+//@before "let new_dead_head_distance"
+        proof {
+            let net = &self.network;
+            let old = self.nodes@;
+            let tail = old.subrange(1, old.len() as int);
+            assert(old =~= seq![old[0]] + tail);
+            assert(nodes@ =~= seq![new_start_depot] + tail);
+            assert(nodes@ =~= old.update(0, new_start_depot));
+            lemma_sums_cons(net, old[0], tail);
+            lemma_sums_cons(net, new_start_depot, tail);
+            lemma_depot_zero(net, old[0]);
+            lemma_depot_zero(net, new_start_depot);
+            lemma_vm_update_depot(net, old, 0, new_start_depot);
+            assert(net.has(old[0]) && net.has(old[1]));
+            lemma_leg_facts(net, old[0], old[1]);
+            lemma_leg_facts(net, new_start_depot, old[1]);
+            assert forall|i: int| 0 <= i < tail.len() implies #[trigger] net.has(tail[i]) by { assert(net.has(old[i + 1])); }
+            lemma_cost_bounds(net, tail);
+            lemma_cost_bounds(net, old);
+            lemma_dhd_bounds(net, tail);
+            assert forall|i: int| 0 <= i < nodes@.len() implies #[trigger] net.has(nodes@[i]) by { if i > 0 { assert(net.has(old[i])); } }
+            // the new tour is connected: a start depot reaches every activity
+            lemma_tour_kinds(self, 1);
+            assert forall|i: int| 0 <= i < nodes@.len() - 1 implies #[trigger] net.reach(nodes@[i], nodes@[i + 1]) by {
+                if i > 0 { assert(net.reach(old[i], old[i + 1])); }
+            }
+            assert(nodes@.subrange(1, nodes@.len() - 1) =~= old.subrange(1, old.len() - 1));
+        }
+//@end
+
+//@item solution/src/tour/modifications.rs Tour::replace_end_depot
+//@retname r
+//@sig
+    requires self.wf(), self.caches_ok(), self.network.has(new_end_depot), tour_len_ok(self.nodes@),
+    ensures
+        r is Ok <==> !self.is_dummy && self.network.sp_node(new_end_depot) is EndDepot,
+        r is Ok ==> r->Ok_0.nodes@ == self.nodes@.update(self.len() - 1, new_end_depot) && r->Ok_0.is_dummy == self.is_dummy && r->Ok_0.network == self.network, // @obl C05.replace_end_depot.only_end_depot_changes
+        r is Ok ==> r->Ok_0.wf(), // @obl C01.replace_end_depot.wf
+        r is Ok ==> r->Ok_0.caches_ok(), // @obl C09.replace_end_depot.caches
+//@before "let new_dead_head_distance"
+        proof {
+            let net = &self.network;
+            let old = self.nodes@;
+            let n = old.len() as int;
+            let head = old.subrange(0, n - 1);
+            assert(old =~= head + seq![old[n - 1]]);
+            assert(nodes@ =~= head + seq![new_end_depot]);
+            assert(nodes@ =~= old.update(n - 1, new_end_depot));
+            lemma_sums_snoc(net, head, old[n - 1]);
+            lemma_sums_snoc(net, head, new_end_depot);
+            lemma_tour_kinds(self, n - 1);
+            lemma_tour_kinds(self, n - 2);
+            lemma_depot_zero(net, old[n - 1]);
+            lemma_depot_zero(net, new_end_depot);
+            lemma_vm_update_depot(net, old, n - 1, new_end_depot);
+            assert(net.has(old[n - 1]) && net.has(old[n - 2]));
+            assert(head.last() == old[n - 2]);
+            lemma_leg_facts(net, old[n - 2], old[n - 1]);
+            lemma_leg_facts(net, old[n - 2], new_end_depot);
+            assert forall|i: int| 0 <= i < head.len() implies #[trigger] net.has(head[i]) by { assert(net.has(old[i])); }
+            lemma_cost_bounds(net, head);
+            lemma_cost_bounds(net, old);
+            lemma_dhd_bounds(net, head);
+            assert forall|i: int| 0 <= i < nodes@.len() implies #[trigger] net.has(nodes@[i]) by { if i < n - 1 { assert(net.has(old[i])); } }
+            assert forall|i: int| 0 <= i < nodes@.len() - 1 implies #[trigger] net.reach(nodes@[i], nodes@[i + 1]) by {
+                if i < n - 2 { assert(net.reach(old[i], old[i + 1])); }
+            }
+            assert(nodes@.subrange(1, nodes@.len() - 1) =~= old.subrange(1, old.len() - 1));
+        }
+//@end
 } // verus!
 fn main() {}
